@@ -26,9 +26,17 @@ def ops_strategy(with_gumbel_opt=True, with_disable=True):
         opts.append(st.tuples(st.just('gumbel'), st.booleans()))
     if with_disable:
         opts.append(st.tuples(st.just('disable'), st.booleans()))
+    names = ['temperature', 'hard'] + (['gumbel'] if with_gumbel_opt else []) + (
+        ['disable'] if with_disable else [])
+    vals = {'temperature': temps, 'hard': st.booleans(), 'gumbel': st.booleans(),
+            'disable': st.booleans()}
+    # usually ONE option per call, sometimes two or three in the same call
+    multi = st.lists(st.sampled_from(names), min_size=2, max_size=3, unique=True).flatmap(
+        lambda ns: st.tuples(*[st.tuples(st.just(n), vals[n]) for n in ns]).map(list))
+    single = st.one_of(*opts).map(lambda o: [list(o)])
     op = st.one_of(
         st.tuples(st.just('coef'), st.integers(0, 10 ** 6)),
-        st.tuples(st.just('opt'), st.one_of(*opts)),
+        st.tuples(st.just('opt'), st.one_of(single, single, single, multi)),
         st.tuples(st.just('train'), st.none()),
         st.tuples(st.just('eval'), st.none()),
         st.tuples(st.just('forward'), st.integers(0, 100)),
@@ -36,6 +44,13 @@ def ops_strategy(with_gumbel_opt=True, with_disable=True):
     )
     return st.lists(op, min_size=1, max_size=12).map(lambda l: [list(o) for o in l] +
                                                      [['forward', 0]])
+
+
+def _pairs(arg):
+    """An 'opt' argument: [[name, value], ...] (older replay files: [name, value])."""
+    if arg and isinstance(arg[0], str):
+        return [arg]
+    return arg
 
 
 def ref_softmax(alpha, T):
@@ -144,11 +159,11 @@ def oracle_qtz(case) -> Result:
                                         'unit'))
             moved = True
         elif op == 'opt':
-            name, val = arg
             kw = {'temperature': None, 'hard': None, 'gumbel': None, 'disable_sampling': None}
-            kw['disable_sampling' if name == 'disable' else name] = val
+            for name, val in _pairs(arg):
+                kw['disable_sampling' if name == 'disable' else name] = val
+                state[name] = val
             must(res, 'update_softmax_options', q.update_softmax_options, **kw)
-            state[name] = val
         elif op == 'train':
             q.train()
             state['training'] = True
@@ -170,7 +185,9 @@ def oracle_qtz(case) -> Result:
     res.nontrivial = len(case['prec']) >= 2 and moved and bool((cur != am0).any())
     res.ev(f"kind:{case['kind']}", f"n:{min(len(case['prec']), 4)}+" if len(case['prec']) >= 4
            else f"n:{len(case['prec'])}")
-    res.ev(*{f"opt:{a[0]}" for o, a in case['ops'] if o == 'opt'})
+    res.ev(*{f"opt:{n}" for o, a in case['ops'] if o == 'opt' for n, _ in _pairs(a)})
+    if any(o == 'opt' and len(_pairs(a)) > 1 for o, a in case['ops']):
+        res.ev('several-options-in-one-call')
     res.obs = {'forwards_checked': n_checked[0], 'final_state': _pub(state)}
     return res
 
@@ -202,12 +219,12 @@ def oracle_comb(case) -> Result:
                 c.alpha.copy_(mu.scores(n, None, arg, 'comb'))
             moved = True
         elif op == 'opt':
-            name, val = arg
-            if name == 'temperature':
-                c.softmax_temperature = val
-            else:
-                c.hard_softmax = val
-            state[name] = val
+            for name, val in _pairs(arg):
+                if name == 'temperature':
+                    c.softmax_temperature = val
+                else:
+                    c.hard_softmax = val
+                state[name] = val
         elif op == 'train':
             c.train()
             state['training'] = True
@@ -279,11 +296,11 @@ def oracle_mps_model(case) -> Result:
             mu.set_coefficients(mps, arg)
             moved = True
         elif op == 'opt':
-            name, val = arg
             kw = {'temperature': None, 'hard': None, 'gumbel': None, 'disable_sampling': None}
-            kw['disable_sampling' if name == 'disable' else name] = val
+            for name, val in _pairs(arg):
+                kw['disable_sampling' if name == 'disable' else name] = val
+                state[name] = val
             must(res, 'update_softmax_options', mps.update_softmax_options, **kw)
-            state[name] = val
         elif op == 'train':
             mps.train()
             state['training'] = True
@@ -332,7 +349,9 @@ def oracle_mps_model(case) -> Result:
                             argmax=[want_w, want_out])
     res.nontrivial = moved and nonini
     res.ev('per-channel' if case['per_channel'] else 'per-layer')
-    res.ev(*{f"opt:{a[0]}" for o, a in case['ops'] if o == 'opt'})
+    res.ev(*{f"opt:{n}" for o, a in case['ops'] if o == 'opt' for n, _ in _pairs(a)})
+    if any(o == 'opt' and len(_pairs(a)) > 1 for o, a in case['ops']):
+        res.ev('several-options-in-one-call')
     res.obs = {'selector_samples_checked': n_checked[0], 'final_state': _pub(state)}
     return res
 
@@ -365,9 +384,11 @@ def oracle_sn_model(case) -> Result:
                     c.alpha.copy_(mu.scores(c.n_branches, None, arg, nid))
             moved = True
         elif op == 'opt':
-            name, val = arg
-            must(res, 'update_softmax_options', sn.update_softmax_options, **{name: val})
-            state[name] = val
+            kw = {}
+            for name, val in _pairs(arg):
+                kw[name] = val
+                state[name] = val
+            must(res, 'update_softmax_options', sn.update_softmax_options, **kw)
         elif op == 'train':
             sn.train()
             state['training'] = True
@@ -401,7 +422,9 @@ def oracle_sn_model(case) -> Result:
             if other or any('sn_combiner' in k for k in names):
                 res.bad('export-kept-non-winning-branch', block=nid, winner=best, kept=other[:4])
     res.nontrivial = moved and any(int(torch.argmax(c.alpha)) != 0 for c in combs.values())
-    res.ev(*{f"opt:{a[0]}" for o, a in case['ops'] if o == 'opt'})
+    res.ev(*{f"opt:{n}" for o, a in case['ops'] if o == 'opt' for n, _ in _pairs(a)})
+    if any(o == 'opt' and len(_pairs(a)) > 1 for o, a in case['ops']):
+        res.ev('several-options-in-one-call')
     res.obs = {'combiner_samples_checked': n_checked[0]}
     return res
 
@@ -419,7 +442,7 @@ CHECK = Check(
              budget={'quick': 120, 'thorough': 600}, shards={'quick': 1, 'thorough': 16}),
     ],
     rule=("Histories of 2..13 operations {set coefficients (random order, pairwise gaps >= 0.05), "
-          "update ONE sampling option (temperature in [0.05,20] / hard / gumbel / disable), train(), "
+          "update one (sometimes two or three) sampling options in one call (temperature in [0.05,20] / hard / gumbel / disable), train(), "
           "eval(), forward} interpreted against (a) a single MPS per-layer selector with 1..8 "
           "precisions or per-channel selector up to 8x16, (b) a SuperNet combiner with 2..12 "
           "branches, (c) whole MPS models and (d) whole SuperNets from the NetSpec grammar; a dict "
